@@ -1,4 +1,5 @@
 mod cli;
+mod gate;
 mod gen;
 mod hung;
 mod node;
@@ -104,6 +105,7 @@ fn main() {
             &outdir,
         ),
         "rooms" => rooms::run(arg(&args, "--seed", 1u64), arg(&args, "--count", 200usize), shards, &outdir),
+        "gate" => gate::run(arg(&args, "--seed", 1u64), arg(&args, "--count", 200usize), shards, &outdir),
         "probe" => cli::probe(&args),
         "cderead" => cli::cderead(&args),
         "simpleread" => cli::simpleread(&args),
